@@ -117,7 +117,7 @@ def build(eng, tier):
     schema.external_tensor(eng)
     eng.add_class(ClassDecl("Condition"))
     eng.add_class(ClassDecl("Lock"))
-    eng.add_class(ClassDecl("ThreadGhost", fields={"g_mine": INT, "g_mine_over": INT}))
+    eng.add_class(ClassDecl("ThreadGhost", fields={"g_mine": INT, "g_mine_over": INT, "g_pre": INT}))
     eng.declare_class_from_source(ED, "_ByteBudget", fields={
         "_capacity": INT, "_in_flight": INT, "_oversized_active": BOOL, "_condition": TRef("Condition"),
         "g_sum": INT, "g_over": INT})
@@ -145,7 +145,10 @@ def build(eng, tier):
     eng.add_target(Target("_ByteBudget.acquire", mod=ED, qual="_ByteBudget.acquire", self_cls="_ByteBudget",
         params=dict(nbytes=INT), setup=setup_me,
         requires=["self._capacity >= 1", "nonnull(self._condition)", "me.g_mine >= 0 and me.g_mine_over >= 0"],
-        ghost=[("store:self._in_flight", "after", "self.g_sum = self.g_sum + amount\nme.g_mine = me.g_mine + amount"),
+        # ghost accounting follows the *stored difference* of the counter, not a local of the body (a renamed temporary
+        # must not break the proof)
+        ghost=[("store:self._in_flight", "before", "me.g_pre = self._in_flight"),
+               ("store:self._in_flight", "after", "self.g_sum = self.g_sum + (self._in_flight - me.g_pre)\nme.g_mine = me.g_mine + (self._in_flight - me.g_pre)"),
                ("store:self._oversized_active", "after", "self.g_over = self.g_over + 1\nme.g_mine_over = me.g_mine_over + 1")],
         ensures=["result == -1 or result == max(nbytes, 0)",
                  "implies(result == -1, max(nbytes, 0) > self._capacity and me.g_mine_over == old(me.g_mine_over) + 1 and me.g_mine == old(me.g_mine))",
@@ -160,7 +163,8 @@ def build(eng, tier):
                   "implies(reservation != -1, 0 <= reservation and reservation <= me.g_mine)",
                   "me.g_mine >= 0 and me.g_mine_over >= 0"],
         ghost=[("store:self._oversized_active", "after", "self.g_over = self.g_over - 1\nme.g_mine_over = me.g_mine_over - 1"),
-               ("store:self._in_flight", "after", "self.g_sum = self.g_sum - reservation\nme.g_mine = me.g_mine - reservation")],
+               ("store:self._in_flight", "before", "me.g_pre = self._in_flight"),
+               ("store:self._in_flight", "after", "self.g_sum = self.g_sum + (self._in_flight - me.g_pre)\nme.g_mine = me.g_mine + (self._in_flight - me.g_pre)")],
         ensures=["implies(reservation == -1, me.g_mine_over == old(me.g_mine_over) - 1 and me.g_mine == old(me.g_mine))",
                  "implies(reservation != -1, me.g_mine == old(me.g_mine) - reservation and me.g_mine_over == old(me.g_mine_over))",
                  "self._capacity == old(self._capacity)"]))
